@@ -42,6 +42,7 @@ Plan cal_gen(const std::string &check, const std::string &tier, uint64_t seed, l
     bool c12 = id == "C12";
     bool c07 = id == "C07" || check.find("store") != std::string::npos;
     if (c12) c16 = true;
+    if (id == "C11") plan.cfg["c11"] = 1;
     bool faults = check.find("faulty") != std::string::npos;
     plan.cfg["callback"] = rng.chance(0.85) ? 1 : 0;
     plan.cfg["solo_twin"] = ((c16 && !c07) || c17) ? 1 : 0;
